@@ -156,4 +156,6 @@ func genExtra() {
 	genC08()
 	genC07()
 	genC15()
+	genC14()
+	genC06()
 }
